@@ -1226,10 +1226,7 @@ func (x *cidGen) retire(kind, idx, didx, dvar int64) {
 			return
 		}
 		x.ownRetired[seq] = true
-		x.route[c] = expiry
-		if x.route2 != nil {
-			// stays registered with the second transport until expiry as well
-		}
+		x.route[c] = expiry // (a second transport keeps it until expiry as well)
 		if seq == 0 {
 			x.expCount--
 			res.Probe("retire-seq-0")
